@@ -18,7 +18,8 @@ DEFAULTS = ['1', "'s'", 'None', '(1, 2)', 'a.b', '-1', '[]', 'x or y', "'\\x1f'"
             # known findings (recognised by their specific witness, see _check)
             "'non\xa0breaking'", '(1,)', '1e999']
 ANNS = ['int', "'str'", 'List[int]', 'None', 'a.B', "Literal['r', 'w']", "t.Literal['r']", "typing_extensions.Literal['x y']",
-        "'None'", "List['a.B']", "'List[int]'", 't.Tuple[()]', 't.Dict[str, t.Tuple[int, int, int, int, int, int, int, int, int, int, int, int, int, int, int, int, int, int, int]]']
+        "'None'", "List['a.B']", "'List[int]'", 't.Tuple[()]', "'int | str' & t.Any", "t.Optional['int | None']", "-'x + y'",
+        "'int if x else str' | None", 't.Dict[str, t.Tuple[int, int, int, int, int, int, int, int, int, int, int, int, int, int, int, int, int, int, int]]']
 
 
 def _layouts(maxn):
